@@ -75,7 +75,7 @@ CLAIMS["C11"] = (
     "character boundary whose column is the width of the prefix, never beyond the requested column and maximal; calc_width is the column difference (hence additive); move_next/prev_char "
     "stop at the adjacent boundary and are inverse (lemma); calc_trim_text: slice width + pads == requested range, pads set iff a wide character straddles that edge.",
     "Assumes: wcwidth range {-1..2} (swept exhaustively by the bounded check), bytes.decode model, monotone prefix sums. Wide (double-byte) mode of calc_text_pos/move_*: bounded only; "
-    "within_double_byte: classification and termination only. apply_target_encoding: bounded only.",
+    "within_double_byte: classification, termination and the ASCII-range trail bytes next to the line start (lead bound 0x81); the general recursion over lead/trail chains bounded only. apply_target_encoding: bounded only (incl. texts that contain SO / SI themselves).",
     "§6 C11",
     TECH + "; bounded stand-in incl. exhaustive sweep of all code points",
 )
